@@ -295,7 +295,7 @@ def add_assume(st, c):
 
 
 class Frame(object):
-    __slots__ = ("body", "locs", "cfg", "depth", "active", "progress", "nest", "inloop", "iters")
+    __slots__ = ("body", "locs", "cfg", "depth", "active", "progress", "nest", "inloop", "iters", "loop_progress")
 
     def __init__(self, body, locs, cfg, depth):
         self.body = body
@@ -306,6 +306,7 @@ class Frame(object):
         self.nest = {}
         self.inloop = set()
         self.iters = {}
+        self.loop_progress = {}
         self.progress = 0  # number of switches decided by constants so far (loop tests of constant-trip loops)
 
 
@@ -1050,6 +1051,9 @@ class Evaluator(object):
                 other = t[3]
                 if v.op == "const":
                     fr.progress += 1
+                    h_ = fr.cfg.innermost.get(bb)
+                    if h_ is not None:
+                        fr.loop_progress[h_] = fr.loop_progress.get(h_, 0) + 1
                     bb = other
                     for x, tb in arms:
                         if x == v.aux:
@@ -1062,11 +1066,14 @@ class Evaluator(object):
                     continue
                 # symbolic branch: fork; merge again at the immediate post-dominator
                 prev = fr.active.get(bb)
-                if prev is not None and (prev == fr.progress or fr.nest.get(bb, 0) > 4200):
+                myloop = fr.cfg.innermost.get(bb)
+                prog_now = fr.loop_progress.get(myloop, 0) if myloop is not None else fr.progress
+                if prev is not None and (prev == prog_now or fr.nest.get(bb, 0) > 4200):
+                    # re-entered without passing a constant-decided test of the same loop: a loop with a symbolic exit
                     raise SymbolicLoop(body["key"], bb, v, fr, "symbolic exit")
                 join = fr.cfg.ipdom.get(bb)
                 sub_stops = stops | {join} if join is not None else stops
-                fr.active[bb] = fr.progress
+                fr.active[bb] = prog_now
                 fr.nest[bb] = fr.nest.get(bb, 0) + 1
                 base_assume = st.assume
                 try:
